@@ -74,6 +74,12 @@ var defaultPureMethods = []string{
 	"github.com/janelia-flyem/dvid/storage.VersionedCtx.MinVersionKey",
 	"github.com/janelia-flyem/dvid/storage.VersionedCtx.MaxVersionKey",
 	"github.com/janelia-flyem/dvid/datastore.DataService.IsMutationRequest",
+	"github.com/janelia-flyem/dvid/datastore.DataService.IsDeleted",
+	"github.com/janelia-flyem/dvid/datastore.DataService.DataName",
+	"github.com/janelia-flyem/dvid/datastore.DataService.DataUUID",
+	"github.com/janelia-flyem/dvid/datastore.DataService.InstanceID",
+	"github.com/janelia-flyem/dvid/datastore.DataService.TypeName",
+	"github.com/janelia-flyem/dvid/datastore.DataService.RootUUID",
 	"github.com/janelia-flyem/dvid/datastore.DataService.Versioned",
 	"github.com/janelia-flyem/dvid/dvid.Point.Value",
 	"github.com/janelia-flyem/dvid/dvid.Point.NumDims",
